@@ -8,7 +8,7 @@
 (*   [k |-> "item", m, v]   header item: mnemonic id m, value id v         *)
 (*   [k |-> "free", id]     a line of ~Other text                          *)
 (*   [k |-> "data", cells]  one physical data line; a cell is               *)
-(*                          [id, cls], cls in {"FIN","NULLEQ","NEAR","TEXT"}*)
+(*                          [id, cls], cls in {"FIN","NULLEQ","NEAR","TEXT","ZERO"}*)
 (*   [k |-> "blank"], [k |-> "comment"], [k |-> "junk", id]                *)
 (* How a line is spelled (title style, padding, number spelling, newline)  *)
 (* is presentation and lives in the harness' concretiser -- by C09 it must *)
@@ -71,13 +71,15 @@ NCols(rows) == IF rows = <<>> THEN 0 ELSE Len(rows[1])
 
 \* NULL rule: a cell becomes NaN iff it is numerically equal to ~W NULL, lies in a non-index numeric column, policy strict
 TextCol(rows, c) == \E r \in DOMAIN rows : rows[r][c].cls = "TEXT"
-\* result encoding of a cell: -1 NaN; a FIN cell its id; a kept NULL-equal cell -2; a kept near-NULL cell -3; text 1000000 + id
+\* result encoding of a cell: -1 NaN; a FIN cell its id; a kept NULL-equal cell -2; a kept near-NULL cell -3; text 1000000 + id;
+\* a ZERO cell (the number zero in any spelling; only generated when NULL is not 0) -4
 CellOut(rows, r, c, o, hasNull) ==
     IF rows[r][c].cls = "NULLEQ" /\ c > 1 /\ o.null_policy = "strict" /\ hasNull /\ ~TextCol(rows, c)
     THEN -1
     ELSE CASE rows[r][c].cls = "FIN" -> rows[r][c].id
            [] rows[r][c].cls = "NULLEQ" -> -2
            [] rows[r][c].cls = "NEAR" -> -3
+           [] rows[r][c].cls = "ZERO" -> -4
            [] rows[r][c].cls = "TEXT" -> 1000000 + rows[r][c].id
 \* curves: declared first (with their names), surplus columns unnamed after them, missing columns NaN of the common length
 Curves(text, o) ==
